@@ -1,10 +1,20 @@
 #include "thread_pool.h"
 #include <cassert>
+#ifdef ORATIO_VERIF
+#include <cstdlib>
+#endif
 
 namespace smt
 {
     CONCURRENT_EXPORT thread_pool::thread_pool(const unsigned &c_size)
     {
+#ifdef ORATIO_VERIF
+        // monitors may override the number of workers (the default is untouched when the variable is unset)..
+        const char *verif_pool_size = std::getenv("ORATIO_VERIF_POOL_SIZE");
+        const unsigned verif_c_size = verif_pool_size ? static_cast<unsigned>(std::atoi(verif_pool_size)) : c_size;
+        {
+            const unsigned &c_size = verif_c_size;
+#endif
         workers.reserve(c_size);
         for (unsigned i = 0; i < c_size; i++)
         {
@@ -31,6 +41,9 @@ namespace smt
                 }
             });
         }
+#ifdef ORATIO_VERIF
+        }
+#endif
     }
     CONCURRENT_EXPORT thread_pool::~thread_pool()
     {
